@@ -149,3 +149,26 @@ PROPS["C05"] = dict(
         dict(test="^TestC05_RollingDescriptors$", quick=dict(timeout=900), thorough=dict(shards=4, timeout=3000)),
     ],
 )
+
+PROPS["C10"] = dict(
+    pkg="c10", level="exploration",
+    technique="rapid state machine over hook settings, logger configurations and entry-point calls with counting hooks and a level-range model",
+    level_text="Exploration: sequences of hook set/unset, logger (re)configuration (built-in console, Refresh-built sync/async with generated ranges) and calls of all 15 entry points with fresh contexts; counting hooks and a counting lazy generator must run exactly once with the caller's context iff the model says the level is enabled, and the record (event fields and both layouts' lines) must carry the hooks' values with context fields ahead of call fields.",
+    level_note="Trusted: the harness's level-range model and recording appender. Wall-clock timestamps (hook unset) are accepted within the call window +-1 ms.",
+    rule="generated action sequences",
+    steps=[
+        dict(test="^TestC10_Hooks$", quick=dict(checks=1500, timeout=900), thorough=dict(checks=10000, shards=12, timeout=3000)),
+    ],
+)
+
+PROPS["C16"] = dict(
+    pkg="c16", level="exploration",
+    technique="rapid state-machine sequences plus bounded-exhaustive short sequences over the lifecycle API against a three-state model (unconfigured / live / failed-live)",
+    level_text="Exploration over histories: generated sequences (length <= 8, tail to 16) and every sequence up to length 3 (quick) / 4 (thorough) over Refresh(valid A/B, invalid early/late), Destroy, tag logging, handle writes, RegisterTag and GetLogger; after each step the model's expectation is checked (no panic, no block within 10 s, console vs configured appender routing, refusal of registration and of a second Refresh while live, Destroy idempotent), and every history ends with Destroy + Refresh(valid) that must route as configured.",
+    level_note="In the failed-live state (a Refresh that failed after it had begun to apply) only 'no panic, no block' is demanded of logging; Refresh/registration outcomes there are not judged because the property does not define them. Trusted: the model and recording appenders.",
+    rule="generated and enumerated operation sequences",
+    steps=[
+        dict(test="^Test(Regress_C16|C16_Generated)$", quick=dict(checks=600, timeout=900), thorough=dict(checks=5000, shards=12, timeout=3000)),
+        dict(test="^TestC16_Exhaustive$", quick=dict(timeout=900), thorough=dict(shards=8, timeout=3000)),
+    ],
+)
